@@ -235,8 +235,8 @@ func init() {
 				b := bounds[i]
 				if b > 0 {
 					b = delayBound(c, b)
-					if c.Thorough() && i%3 != 0 {
-						b = 2 // the third deviation for every third scenario (all of them do not finish in the budget)
+					if c.Thorough() && i%3 == 0 {
+						b = 3 // the third deviation for every third scenario (all of them do not finish in the budget)
 					}
 				}
 				if !c.Mine(i) {
